@@ -88,7 +88,10 @@ def check_case(case, workdir=None):  # pylint: disable=too-many-branches,too-man
             raise Fail('a translation unit that includes the returned headers more than once does '
                        f'not compile: {farm.first_diag(out)}\n{out[:2000]}',
                        'multi-include:' + farm.norm_diag(farm.first_diag(out)))
-        # (d) separate translation unit, link, run
+        # (d) separate translation unit, link, run (cases without a cross-prefix part: a companion
+        # shell of the other facilities origin is linked into the same program, ahead of this one)
+        if not case.get('cross'):
+            pr.add_twin()
         try:
             exe = pr.build_driver()
         except farm.BuildError as exc:
@@ -96,7 +99,7 @@ def check_case(case, workdir=None):  # pylint: disable=too-many-branches,too-man
         imp = int(spec['origin'] == 'IMPORT')
         script = [f'locator {imp} {imp} 1 0', 'construct inst']
         if spec.get('mc'):
-            script += ['client A -', 'client B -']
+            script += ['client B -', 'client A -']  # descending registration order
         script += ['bind -', 'final 1', 'touch', 'addr']
         rc, trace, err = pr.run_driver(exe, script)
         notes = [t.get('what') for t in trace if t.get('k') == 'note']
